@@ -33,7 +33,8 @@ RULE = (
     "followed by 1-8 steps of update(seqids) / union / subset / copy / deepcopy / pickle / to_rich_dict / to_json / "
     "write+reload, some without an intervening read; plus a few directed histories per run that reach named classes for "
     "certain (empty db, incompatible-class refusals, persistence right after an unread update/union, lines_per_block "
-    "splitting the rows of one ID, GenBank glob / multi-record file, loading into a file-backed db). After every step len, all records, all features, biotype_counts and "
+    "splitting the rows of one ID, GenBank glob / multi-record file, trans-spliced GenBank locations with complement() on the first / last / middle "
+    "segment listed in ascending / descending / arbitrary order through every load route, loading into a file-backed db). After every step len, all records, all features, biotype_counts and "
     "the start/stop columns are compared with the list model; the final state (and a sample after each step) is queried "
     "with get_records_matching / get_features_matching / num_matches / subset / count_distinct: all 256 presence subsets "
     "of (seqid, biotype, name, strand, attributes, on_alignment, start, stop) x allow_partial, values as equality / IN "
@@ -58,7 +59,9 @@ ASSUMPTIONS = [
     "documented query semantics: equality, IN for list values, SQL LIKE for values containing %, substring for attributes; "
     "window: records inside [start, stop) or (allow_partial) overlapping it; start-only / stop-only = record contains that position",
     "row order is unspecified (multisets); names invented for unnamed records are unspecified",
-    "an unset strand is equivalent to '+' (add_feature documents the default); LIKE case folding is unspecified",
+    "an unset strand of a user-added record is equivalent to '+' (add_feature documents the default); a loaded GenBank "
+    "record whose location has segments on both strands has no strand (None), is selected by no strand condition and "
+    "must come back with strand None; LIKE case folding is unspecified",
     "GFF rows with one ID form one record; a GenBank location's segments form one record",
 ]
 TIMEOUT = {"quick": 900, "thorough": 7200}
